@@ -10,7 +10,14 @@ import "github.com/pilosa/pilosa/roaring"
 type verifHasher struct{}
 
 func (verifHasher) Hash(key uint64, n int) int {
-	return int(verifUF("hash", key, uint64(n)) % uint64(n))
+	// an arbitrary function into [0,n): constrain the uninterpreted value
+	// instead of reducing it (64-bit division by 3 is needlessly hard to decide)
+	h := verifUF("hash", key, uint64(n))
+	if verifNative() {
+		return int(h % uint64(n)) // applications outside the model
+	}
+	verifAssume(h < uint64(n))
+	return int(h)
 }
 
 // verifNodeIDs returns n distinct symbolic 1-byte node IDs.
